@@ -14,6 +14,7 @@ import (
 	"strings"
 	"sync"
 
+	pipeline "github.com/buildkite/go-pipeline"
 	"github.com/buildkite/go-pipeline/signature"
 	"github.com/buildkite/go-pipeline/verifseam"
 
@@ -412,6 +413,57 @@ func c14run(w *report.W) {
 			}
 		}
 	}
+	// position independence: the payload of a step signed through SignSteps is the same at every position of every
+	// small step forest (top level, after another step, inside a group, inside a nested group) and equals Sign's payload
+	for _, b := range sigInitials {
+		sb, _ := c14initial(b, "EdDSA")
+		alone, _, _, _, e0 := c14payload(sb, nil)
+		if _, err := stepFromTree(sb.Step); err != nil || e0 != "" {
+			continue
+		}
+		k, _ := findKey("EdDSA#0")
+		mk := func() *pipeline.CommandStep { cs, _ := stepFromTree(sb.Step); return cs }
+		other := func() *pipeline.CommandStep { return &pipeline.CommandStep{Command: "other", Env: map[string]string{"O": "o"}} }
+		forests := []struct {
+			name  string
+			steps pipeline.Steps
+			n     int
+		}{
+			{"[S]", pipeline.Steps{mk()}, 1},
+			{"[other,S]", pipeline.Steps{other(), mk()}, 2},
+			{"[group[S]]", pipeline.Steps{&pipeline.GroupStep{Steps: pipeline.Steps{mk()}}}, 1},
+			{"[S,group[other,S]]", pipeline.Steps{mk(), &pipeline.GroupStep{Steps: pipeline.Steps{other(), mk()}}}, 3},
+			{"[group[group[S]],wait,S]", pipeline.Steps{&pipeline.GroupStep{Steps: pipeline.Steps{&pipeline.GroupStep{Steps: pipeline.Steps{mk()}}}}, &pipeline.WaitStep{}, mk()}, 2},
+		}
+		for _, f := range forests {
+			penv := map[string]string{}
+			for kk, v := range sb.Penv {
+				penv[kk] = v
+			}
+			l := &payloadLogger{}
+			err := signature.SignSteps(sigCtx, f.steps, k.Sign, sb.Repo, signature.WithEnv(penv), signature.WithLogger(l), signature.WithDebugSigning(true))
+			w.P.Evaluations++
+			w.Count("position_forests", 1)
+			cs := "SignSteps " + f.name + " with S=" + b.Name
+			if err != nil || len(l.payloads) != f.n {
+				w.Violate(report.Violation{Kind: "position-sign-error", Case: cs, Detail: fmt.Sprintf("err=%v, %d payloads logged for %d command steps (options not reaching a nested call?)", err, len(l.payloads), f.n), Size: 6})
+				continue
+			}
+			otherP := ""
+			for _, p := range l.payloads {
+				if p == alone {
+					continue
+				}
+				if strings.Contains(p, `"command":"other"`) && (otherP == "" || otherP == p) {
+					otherP = p
+					continue
+				}
+				w.Violate(report.Violation{Kind: "payload-depends-on-position", Case: cs,
+					Detail: "payload differs from signing the step alone:\n  in forest: " + p + "\n  alone:     " + alone, Size: 6})
+				break
+			}
+		}
+	}
 	// seam: every order of the three range loops in Sign/Verify
 	verifseam.OpenMaxLen = 4
 	defer func() { verifseam.OpenMaxLen = 0; verifseam.SetChooser(nil) }()
@@ -504,6 +556,7 @@ func init() {
 			"all step mutations of C01 (single-point changes, re-orderings, re-spellings, key/value and item/item boundary shifts) plus pipeline-env changes, name/value boundary shifts, moving a variable between step env and " +
 			"pipeline env (also as a step env entry literally named env::NAME), command/repository-URL boundary shifts and algorithm changes. The payload bytes logged by Sign and by Verify are recorded per state; states are " +
 			"classed by the harness's canonical semantic form + algorithm name: within a class all payloads must be byte-identical and equal between Sign and Verify, across classes pairwise distinct (hash map keyed by payload). " +
+			"History independence: every ordered pair of initial states signed with one shared pipeline-env map. Position independence: every initial state signed through SignSteps at every position of five step forests (top level, after another step, in a group, in a nested group) logs the same payload as Sign alone. " +
 			"Seam: every order of the three map loops of Sign/Verify (maps <=4 entries fully). Non-trivial = number of distinct content classes.",
 		Assumptions: []string{
 			"payload bytes are observed through the library's own debug log (WithDebugSigning)",
